@@ -19,9 +19,15 @@ func asmG(c gen.AsmConfig) gmars.SimulatorConfig {
 	} else if c.NOP94 {
 		mode = gmars.NOP94
 	}
-	return gmars.SimulatorConfig{Mode: mode, CoreSize: gmars.Address(c.CoreSize), Processes: gmars.Address(c.Processes),
+	g := gmars.SimulatorConfig{Mode: mode, CoreSize: gmars.Address(c.CoreSize), Processes: gmars.Address(c.Processes),
 		Cycles: 1000, ReadLimit: gmars.Address(c.CoreSize), WriteLimit: gmars.Address(c.CoreSize),
 		Length: gmars.Address(c.Length), Distance: gmars.Address(c.Distance)}
+	if err := g.Validate(); err != nil {
+		// every assembler-side check works under configurations the assembler accepts; one it
+		// refuses would make the check test nothing (see DESIGN.md, C05 scaling)
+		panic(fmt.Sprintf("INCOMPLETE: harness configuration %+v is refused: %v", c, err))
+	}
+	return g
 }
 
 // compile calls CompileWarrior, converting a panic into an error message.
